@@ -152,7 +152,7 @@ CHECKS = {
         "A full station (GN + BTP routers, CA / DEN / VRU reception, optional LDM, security off and on) reads generated streams through the real "
         "RawLinkLayer.receive() thread from a scripted socket (1 case in 4: the real PythonCV2XLinkLayer.callback_handler_loop from a scripted queue, vendor binding stubbed); the loop must consume every frame and end only at the scripted OSError / stop signal, own-MAC "
         "and foreign-unicast frames must never reach the router, and a twin station that gets only the valid frames must end with identical "
-        "facility deliveries, location-table entries, LDM objects and trust store. atheris campaigns (2 x 1500 runs quick, 16 x 60000 thorough; empty and seeded corpus) decode the fuzzer's bytes into 1..3 bad frames "
+        "facility deliveries, location-table entries, LDM objects and trust store. atheris campaigns (2 x 1500 runs quick, 16 x 20000 thorough; empty and seeded corpus) decode the fuzzer's bytes into 1..3 bad frames "
         "inserted into a fixed valid stream, with the same differential oracle inside the target; findings are collected by signature without stopping the campaign.",
         "Sampled streams (<= 14 frames) from five bad-frame generators; bad frames use a source disjoint from the valid ones except the 'shadow' generator (certainly malformed twins of a later frame of a valid source); forwarding output not compared; the vendor side of the C-V2X queue (receive_process) is not exercised; libFuzzer campaigns are pinned by -seed/-runs only approximately, the saved input is the reproducible unit.",
     ),
